@@ -1426,8 +1426,68 @@ fn emit1(op: &str, a: Vec<V>, out: &mut Vec<String>, pid: &mut u64) {
     *pid += 1;
     if let Some(s) = pb.finish(*pid, &["Q", "f64"]) { out.push(s); }
 }
+/// homogeneity sweeps: every function of the profile with every factor of the recorder's table it is defined for
+fn cover_scale(profile: &str, p: &Pools, rng: &mut Rng, out: &mut Vec<String>, pid: &mut u64) {
+    // indices into exec_proj::SCALES: 0..3 next to 1, 4..9 = 1e-3 1e3 1e-9 1e9 1e-17 1e17, 10 = -1e-6, 11 12 = 1e-150 1e150, 13 = 1e-170
+    const NEAR: &[i64] = &[0, 1, 2, 3];
+    const MID: &[i64] = &[4, 5, 6, 7, 8, 9];
+    let fns: &[(&str, &[&[i64]])] = match profile {
+        "C01" => &[("m4_transform_point", &[NEAR, MID, &[10, 11, 12]]), ("m4_det", &[NEAR, MID, &[10]]), ("m3_det", &[NEAR, MID, &[10]])],
+        "C02" => &[("m4_invert", &[NEAR, MID, &[10]]), ("m4_inverse_transform", &[NEAR, MID, &[10]]), ("m3_invert", &[NEAR, MID, &[10]]), ("m2_invert", &[NEAR, MID, &[10]])],
+        "C03" => &[("v3_cross", &[NEAR, MID, &[10, 11, 12]]), ("v3_dot", &[NEAR, MID, &[10, 11, 12]])],
+        "C04" => &[("q_invert", &[NEAR, MID, &[10]]), ("q_normalize", &[NEAR, MID])],
+        "C11" => &[("v3_normalize", &[NEAR, MID]), ("v2_normalize", &[NEAR, MID]), ("v4_normalize", &[NEAR, MID]), ("q_normalize", &[NEAR, MID]), ("v3_magnitude", &[NEAR, MID, &[10]]),
+                   ("v3_angle", &[NEAR, MID]), ("v2_angle", &[NEAR, MID]), ("v3_project_on", &[NEAR, MID, &[10]])],
+        "C12" => &[("from_homogeneous", &[NEAR, MID, &[10, 11, 12]])],
+        "C15" => &[("from_arc", &[NEAR, &[4, 5]])],
+        "C18" => &[("v3_is_zero", &[NEAR, MID, &[10, 11, 12, 13]]), ("v4_is_zero", &[NEAR, MID, &[10, 11, 12, 13]]), ("v2_is_zero", &[NEAR, MID, &[10, 11, 12, 13]])],
+        _ => &[],
+    };
+    let nz3 = |rng: &mut Rng| Vector3::new(small_nz(rng), small_nz(rng), small_nz(rng));
+    for (fname, groups) in fns {
+        for g in groups.iter() { for &kc in g.iter() { for _rep in 0..2 {
+            let args: Vec<V> = match *fname {
+                "m4_invert" | "m4_inverse_transform" | "m4_det" => {
+                    // dense, not affine
+                    let c = |rng: &mut Rng| Vector4::new(small(rng), small(rng), small(rng), small(rng));
+                    let m = loop { let m = Matrix4::from_cols(c(rng), c(rng), c(rng), c(rng)); if m.determinant().n != 0 { break m; } };
+                    vec![Val::M4(m)]
+                }
+                "m3_invert" | "m3_det" => vec![Val::M3(loop { let m = Matrix3::from_cols(rv3(rng), rv3(rng), rv3(rng)); if m.determinant().n != 0 { break m; } })],
+                "m2_invert" => vec![Val::M2(loop { let m = Matrix2::from_cols(rv2(rng), rv2(rng)); if m.determinant().n != 0 { break m; } })],
+                "m4_transform_point" => {
+                    // a projective matrix and a point whose image has w != 0
+                    let c = |rng: &mut Rng| Vector4::new(small(rng), small(rng), small(rng), small(rng));
+                    let (m, pt) = loop { let m = Matrix4::from_cols(c(rng), c(rng), c(rng), c(rng)); let pt = Point3::from_vec(rv3(rng));
+                        if (m * pt.to_homogeneous()).w.n != 0 { break (m, pt); } };
+                    vec![Val::M4(m), Val::P3(pt)]
+                }
+                "from_homogeneous" => vec![Val::V4(rv3(rng).extend(small_nz(rng)))],
+                "q_invert" | "q_normalize" => vec![Val::Q(Quaternion::from_sv(small_nz(rng), rv3(rng)))],
+                "v3_normalize" | "v3_magnitude" | "v3_is_zero" => vec![Val::V3(nz3(rng))],
+                "v2_normalize" | "v2_is_zero" => vec![Val::V2(Vector2::new(small_nz(rng), small(rng)))],
+                "v4_normalize" | "v4_is_zero" => vec![Val::V4(nz3(rng).extend(small(rng)))],
+                "v2_angle" => vec![Val::V2(Vector2::new(small_nz(rng), small(rng))), Val::V2(Vector2::new(small(rng), small_nz(rng)))],
+                "from_arc" => { let (a, b) = loop { let (a, b) = (nz3(rng), nz3(rng)); let c = a.cross(b); if c.x.n != 0 || c.y.n != 0 || c.z.n != 0 { break (a, b); } }; vec![Val::V3(a), Val::V3(b)] }
+                _ => { let (a, b) = loop { let (a, b) = (nz3(rng), nz3(rng)); let c = a.cross(b); if (c.x.n != 0 || c.y.n != 0 || c.z.n != 0) && a.dot(b).n != 0 { break (a, b); } }; vec![Val::V3(a), Val::V3(b)] }
+            };
+            let mut a = vec![t(fname), Val::I(kc)];
+            a.extend(args);
+            emit1("scale_proj", a, out, pid);
+        } } }
+    }
+    if profile == "C03" {
+        for gc in 0..4 { for _ in 0..4 {
+            let (u, w) = loop { let (u, w) = (nz3(rng), nz3(rng)); let c = u.cross(w); if c.x.n != 0 || c.y.n != 0 || c.z.n != 0 { break (u, w); } };
+            emit1("cross_near_proj", vec![Val::V3(u), Val::V3(w), Val::I(gc)], out, pid);
+        } }
+    }
+    let _ = p;
+}
+
 /// systematic parts of the other native-arithmetic projections: every combination of their small tables
 fn cover_proj(profile: &str, p: &Pools, rng: &mut Rng, out: &mut Vec<String>, pid: &mut u64) {
+    cover_scale(profile, p, rng, out, pid);
     match profile {
         "C15" => {
             for kind in ["quat", "basis3", "arc"] { for anti in [false, true] {
@@ -1507,12 +1567,15 @@ fn cover_proj(profile: &str, p: &Pools, rng: &mut Rng, out: &mut Vec<String>, pi
 }
 
 pub fn drive2(profile: &str, seed: u64, count: usize) -> Vec<String> {
+    fn gen_none(_p: &Pools, _rng: &mut Rng, _pb: &mut PB) {}
     let gen: fn(&Pools, &mut Rng, &mut PB) = match profile {
         "C01" => gen_c01, "C05" => gen_c05, "C06" => gen_c06, "C07" => gen_c07, "C08" => gen_c08, "C09" => gen_c09, "C10" => gen_c10,
         "C11" => gen_c11, "C13" => gen_c13, "C14" => gen_c14, "C15" => gen_c15,
         "C16" => gen_c16, "C18" => gen_c18, "C19" => gen_c19, "C20" => gen_c20,
+        "C02" | "C03" | "C04" | "C12" => gen_none,     // the operator table drives these; only the sweeps below are added here
         _ => return Vec::new(),
     };
+    let count = if gen as usize == gen_none as usize { 0 } else { count };
     let p = pools();
     let mut rng = Rng(seed.wrapping_mul(0x9E3779B97F4A7C15) ^ 0xBADC0DE ^ (profile.as_bytes()[2] as u64) << 8 ^ (profile.as_bytes()[1] as u64) << 16);
     let mut out = Vec::new();
